@@ -65,6 +65,25 @@ def _configs(tier):
     for aw, dw in ([(1, 1), (1, 2), (2, 1), (2, 2)] if T else [(1, 1), (1, 2), (2, 1)]):
         out.append({'block': 'SynchronousMemory', 'aw': aw, 'dw': dw})
     out.append({'block': 'DualPortSynchronousMemory', 'aw': 1, 'dw': 1})
+    # wide configurations (sizes that invite special-casing); data inputs restricted to boundary values ('corner')
+    for w in ((8, 16, 31, 32, 33, 63, 64, 65) if T else (8, 32, 33, 64)):
+        out.append({'block': 'Reg', 'w': w, 'e': 1, 'r': 1, 'rv': (1 << w) - 1, 'corner': 1})
+        out.append({'block': 'Reg', 'w': w, 'e': 0, 'r': 0, 'rv': 1 << (w - 1), 'corner': 1})
+        out.append({'block': 'DelayLine', 'w': w, 'delay': 2, 'en': 1, 'reset': 1, 'corner': 1})
+        out.append({'block': 'PipelinePhase', 'n': 1, 'w': w, 'corner': 1})
+        out.append({'block': 'ShiftRegisterBidirectional', 'w': w, 'depth': 2, 'corner': 1})
+        out.append({'block': 'Stack_ShiftRegister', 'w': w, 'depth': 2, 'corner': 1})
+        out.append({'block': 'SynchronousMemory', 'aw': 1, 'dw': w, 'corner': 1, 'few': 1})
+    for w in ((4, 8, 10) if T else (4, 8)):
+        # counters: the whole 2**w cycle is walked
+        out.append({'block': 'Counter', 'w': w, 'reset': 1, 'inc': 1})
+        out.append({'block': 'StepUpCounter', 'w': w, 'sw': w, 'corner': 1})
+        for m in sorted({1 << w, (1 << w) - 1, (1 << w) // 2 + 1, 10 if w >= 4 else 3}):
+            out.append({'block': 'ModuloCounter', 'w': w, 'mod': m})
+    for w in ((32, 64) if T else (32,)):
+        # too many states to close: all input sequences up to depth 12 from power-up (reported as capped)
+        out.append({'block': 'Counter', 'w': w, 'reset': 1, 'inc': 1, 'maxdepth': 12})
+        out.append({'block': 'StepUpCounter', 'w': w, 'sw': w, 'corner': 1, 'maxdepth': 4})
     return out
 
 
@@ -185,7 +204,8 @@ def run_shard(d):
         return {'constructor_rejected': 1, 'configs': 1, 'vacuous_ok': True, 'distinct_outcomes': 0,
                 'samples': [{'config': d, 'rejected': repr(e)[:200]}], 'violations': []}
     try:
-        ex = product.explore_product(lambda: build(d), max_states=100000)
+        ex = product.explore_product(lambda: build(d), max_states=100000, corner=bool(d.get('corner')),
+                                     max_depth=d.get('maxdepth'), validate_every=1 if not d.get('corner') and d.get('w', 1) < 8 else 5)
     except core.HarnessError:
         raise
     except Exception as e:
